@@ -9,7 +9,7 @@ HOOK_COMMITS = ["a1e4d44"]
 NOT_APPLICABLE = {}
 
 # properties whose check has been reviewed and verified on the unchanged tree; only these go into MANIFEST.json
-CLAIMED = ["C01", "C02", "C03", "C04", "C05", "C06", "C07", "C08", "C09", "C11", "C12", "C13", "C14", "C15", "C16", "C17", "C18", "C19", "C20"]
+CLAIMED = ["C01", "C02", "C03", "C04", "C05", "C06", "C07", "C08", "C09", "C10", "C11", "C12", "C13", "C14", "C15", "C16", "C17", "C18", "C19", "C20"]
 
 CHECKS = {
     "C13": dict(
@@ -364,6 +364,29 @@ CHECKS = {
             dict(run="TestWriterClose", checks_quick=250, checks_thorough=2500, shards_quick=4, shards_thorough=12, timeout=2400),
             dict(run="TestReaderClose", checks_quick=40, checks_thorough=300, shards_quick=6, shards_thorough=16, timeout=2400),
             dict(run="TestTransportCancel", checks_quick=150, checks_thorough=2000, shards_quick=1, shards_thorough=4, timeout=1200),
+        ],
+    ),
+    "C10": dict(
+        pkg="props/c10", level="exploration", race=True, replay_repeat=30,
+        technique="property-based testing (rapid) of generated concurrent client programs under the Go race detector: the detector's reports are the oracle, read back per program and given a signature (innermost library frames of the two conflicting accesses)",
+        level_text=("Programs of 2-4 goroutines, each a short list of exported-method calls (repeated 1-100 times) on ONE shared value of a type documented as goroutine-safe, run against the fake cluster in a binary built with -race: "
+                    "Writer (sync/async, several balancers: WriteMessages, cancelled WriteMessages, Stats, Close), Reader (FetchMessage, ReadMessage, SetOffset, SetOffsetAt, Offset, Lag, ReadLag, Stats, Config, Close), "
+                    "group Reader (plus CommitMessages, sync and interval commits), Conn (deadline setters, Offset, Seek in all modes, ReadOffsets, WriteMessages, WriteCompressedMessages, ReadBatch+ReadMessage, Read, ReadPartitions, Brokers, Controller, ApiVersions, Close), "
+                    "Batch (Read, ReadMessage, Offset, HighWaterMark, Throttle, Partition, Err, Close), Client over one Transport (Metadata, ListOffsets, Produce, Fetch, CreateTopics, OffsetFetch, OffsetCommit, ListGroups, DescribeGroups, ApiVersions, ConsumerOffsets, CloseIdleConnections; short and long metadata TTL), "
+                    "every built-in balancer, every compression codec value. After each program the number of detector reports (runtime.RaceErrors) is compared and the new reports are parsed from the detector's log."),
+        level_note="a race is only reported when the two accesses actually overlap in the sampled schedule; absence of reports is not absence of races. Races between harness goroutines only stop the run as an infrastructure error",
+        rule=("case = (subject type, variant, records in the log, per-goroutine operation lists, repetitions); non-trivial = calls of two different goroutines on the shared value were in progress at the same time (measured); distinct by the case value."),
+        assumptions=["the fake cluster and in-memory network are themselves race-free (a report without a library frame is treated as a harness fault, exit 2)",
+                     "a panic recovered in a caller's goroutine is recorded as an observation, not judged by this property"],
+        units=[
+            dict(run="TestWriterPrograms", checks_quick=60, checks_thorough=700, shards_quick=2, shards_thorough=2, timeout=2400),
+            dict(run="TestReaderPrograms", checks_quick=60, checks_thorough=700, shards_quick=2, shards_thorough=2, timeout=2400),
+            dict(run="TestGroupReaderPrograms", checks_quick=40, checks_thorough=500, shards_quick=2, shards_thorough=2, timeout=2400),
+            dict(run="TestConnPrograms", checks_quick=60, checks_thorough=700, shards_quick=2, shards_thorough=2, timeout=2400),
+            dict(run="TestBatchPrograms", checks_quick=100, checks_thorough=1500, shards_quick=1, shards_thorough=2, timeout=2400),
+            dict(run="TestClientPrograms", checks_quick=60, checks_thorough=700, shards_quick=2, shards_thorough=2, timeout=2400),
+            dict(run="TestBalancerPrograms", checks_quick=100, checks_thorough=1500, shards_quick=1, shards_thorough=1, timeout=2400),
+            dict(run="TestCodecPrograms", checks_quick=60, checks_thorough=600, shards_quick=1, shards_thorough=1, timeout=2400),
         ],
     ),
     "C03": dict(
